@@ -190,6 +190,41 @@ def split_roots(case, target):
     return frontier + leaves
 
 
+def _iso_child(fn, conn):
+    try:
+        conn.send(('ok', fn()))
+    except BaseException as e:      # noqa
+        conn.send(('exc', f'{type(e).__name__}: {e}\n{traceback.format_exc(limit=8)}'))
+    finally:
+        conn.close()
+
+
+def run_isolated(fn, attempts=3):
+    """Run fn() in a forked child (netCDF/HDF5/GEOS state never leaks into or out of it).
+    A child that dies abnormally (a crash inside a C library) is retried; it is never a verdict."""
+    mp = multiprocessing.get_context('fork')
+    last = ''
+    for k in range(attempts):
+        parent, child = mp.Pipe(duplex=False)
+        pr = mp.Process(target=_iso_child, args=(fn, child))
+        pr.start()
+        child.close()
+        res = None
+        try:
+            if parent.poll(3000):
+                res = parent.recv()
+        except EOFError:
+            res = None
+        pr.join(30)
+        if pr.is_alive():
+            pr.kill()
+        if res is not None and res[0] == 'ok':
+            return res[1]
+        last = res[1] if res else f'child exited with code {pr.exitcode}'
+        print(f'[runner] isolated step failed (attempt {k + 1}): {last[:300]}', file=sys.stderr)
+    return [], [f'file-based checks could not be completed: {last[:500]}'], {}
+
+
 _CASES = []
 
 
@@ -244,7 +279,7 @@ def match_known(known, viol):
 
 def main_run(prop, tier, cases, *, functions=(), bounds=None, stubs=(), assumptions=(),
              level='model_checking', extra_evidence=None, extra_errors=(), extra_violations=(),
-             seed=0, procs=None, time_budget=None, explanation=None):
+             seed=0, procs=None, time_budget=None, explanation=None, late_checks=None):
     """Run all cases, write evidence, print verdict lines, return exit code."""
     global _CASES
     t0 = time.time()
@@ -273,6 +308,12 @@ def main_run(prop, tier, cases, *, functions=(), bounds=None, stubs=(), assumpti
                 for r in pool.imap_unordered(_work, tasks, chunksize=1):
                     results.append(r)
 
+    # checks that touch netCDF/HDF5 files or threads run only after the worker pool has been forked and joined
+    if late_checks is not None:
+        lv, le, lev = run_isolated(late_checks)
+        extra_violations = list(extra_violations) + list(lv)
+        extra_errors = list(extra_errors) + list(le)
+        extra_evidence = dict(extra_evidence or {}, **(lev or {}))
     agg = dict(paths=0, aborted=0, validated=0, decisions=0, queries=0, solver_time=0.0, obligations=0)
     violations, errors, samples = list(extra_violations), list(extra_errors) + pre_errors, []
     per_case = {}
